@@ -26,6 +26,9 @@
               (``isinstance(obj, str) and not env.string_first_and_last``) is ruled out by the
               path conditions; ``len(obj)`` only for ``size``; the plain subscription only where
               the ``string_sequences`` guard is ruled out.
+  C14-HIT     on a cache hit the reused template carries exactly the globals of the current request
+              (the cache-hit rule of C23, re-keyed): an earlier request's template globals never
+              keep resolving.
 Not decided: path resolution results for particular data (value level).
 """
 
@@ -44,7 +47,7 @@ CTX = "liquid.context.RenderContext"
 
 def run(repo: Repo) -> Result:
     res = Result(PID)
-    res.rules = ["C14-CHAIN", "C14-MAP", "C14-PAIR", "C14-WITH", "C14-BLOCK", "C14-INCLUDE", "C14-UNDEF", "C14-ITEM"]
+    res.rules = ["C14-CHAIN", "C14-MAP", "C14-PAIR", "C14-WITH", "C14-BLOCK", "C14-INCLUDE", "C14-UNDEF", "C14-ITEM", "C14-HIT"]
     res.explanation = "scope-chain order tables + push/pop pairing + who-may rules for binding constructs"
     res.assumptions = ["path resolution for particular data is value-level and not decided"]
 
@@ -426,6 +429,20 @@ def run(repo: Repo) -> Result:
         miss = [k for k, n_ in seen.items() if not n_]
         if miss:
             raise AnchorMissing(f"{f.qual}: no exit found for {miss} (size/first/last/plain expected); re-derive C14-ITEM")
+    # ---- C14-HIT: the template-globals layer of a cached template is the current request's ------------
+    # "then front matter and template globals": with a caching loader the template object is reused,
+    # so the globals a name resolves against must be the ones passed with *this* request — also
+    # when they are empty (a missing name must then be undefined, not an earlier request's value).
+    # Decided by the cache-hit rule of C23 (every path that returns the cached template has stored
+    # exactly this request's globals on it); same rule code, re-keyed.
+    from . import c23 as _c23
+
+    r23 = _c23.run(repo)
+    res.ob("cache-hit-globals", 2)
+    for f23 in r23.findings:
+        if f23.rule == "C23-STORE" and f23.detail.startswith("globals-on-hit"):
+            res.add("C14-HIT", f23.construct, f23.detail, f23.message + " — a name bound only in the template globals of an earlier request keeps resolving", f23.file, f23.line)
+
     return res
 
 
